@@ -149,24 +149,69 @@ def check_point(rec, V):
     return tests
 
 
+def probes(V):
+    """Selections and positions the layout documents it refuses.  A refusal is fine; when such a call returns
+    normally, what the statement says about its result must hold (the qubit sits exactly on the trap it
+    records, and looking its position up returns that same id)."""
+    import pulser
+    tests = 0
+    for dim, pts in ((2, [(0.0, 0.0), (20.0, 0.0), (0.0, 20.0), (20.0, 20.0), (10.0, 5.0)]),
+                     (3, [(0.0, 0.0, 0.0), (20.0, 0.0, 0.0), (0.0, 20.0, 5.0), (20.0, 20.0, 20.0)])):
+        lay = RegisterLayout(pts)
+        n = lay.number_of_traps
+        sc = np.asarray(lay.sorted_coords, dtype=float)
+        for sel in ((-1,), (-n,), (n - 1, -1), (n,), (0, -2)):
+            tests += 1
+            try:
+                reg = lay.define_register(*sel)
+            except Exception:  # noqa: BLE001
+                continue
+            pos = [np.asarray(reg.qubits[q].as_array() if hasattr(reg.qubits[q], "as_array") else reg.qubits[q],
+                              dtype=float) for q in reg.qubit_ids]
+            on = all(0 <= t < n and np.allclose(p, sc[t], rtol=0, atol=1e-6) for t, p in zip(sel, pos))
+            try:
+                back = list(lay.get_traps_from_coordinates(*pos))
+            except Exception:  # noqa: BLE001
+                back = None
+            if not on or back != list(sel) or len({tuple(np.round(p, 6)) for p in pos}) != len(pos):
+                V.report({"clause": "define_register_outside_ids", "dim": dim, "n": n},
+                         {"selection": list(sel), "lookup": back, "positions": [list(map(float, p)) for p in pos]})
+        # a register that names its layout and traps while sitting off them
+        Reg = pulser.Register if dim == 2 else pulser.Register3D
+        for off in (3e-6, 5e-5, 2e-4):
+            tests += 1
+            ids = [1, n - 1]
+            q = {f"a{k}": sc[t] + (off if k == 0 else 0.0) * np.eye(dim)[0] for k, t in enumerate(ids)}
+            try:
+                reg = Reg(q, layout=lay, trap_ids=ids)
+            except Exception:  # noqa: BLE001
+                continue
+            V.report({"clause": "register_off_its_traps_accepted", "dim": dim},
+                     {"offset_um": off, "trap": ids[0], "trap_coords": list(map(float, sc[ids[0]]))})
+    return tests
+
+
 def run(tier):
     V = Verdict("C19", tier)
     quick = tier != "thorough"
     runs = []
-    grid = "{-16, -6, -4, 4, 6, 10000014}"
-    for (dim, nmax) in ((2, 3), (3, 2)) if quick else ((2, 4), (3, 3)):
-        if dim == 3:
-            g = "{-6, 4, 10000014}" if not quick else "{-6, 4, 10000014}"
-        else:
-            g = grid if not quick else "{-6, -4, 4, 6, 10000014}"
-        res, pts = enumerate_points("C19", f"layout-{dim}d", "Layout",
+    # TLC builds the set of all point sequences in the initial predicate: at most 1e6 elements per run
+    if quick:
+        lattices = [(2, 3, "{-6, -4, 4, 6, 10000014}"), (3, 2, "{-6, 4, 10000014}")]
+    else:
+        lattices = [(2, 3, "{-16, -6, -4, 4, 6, 10000014}"), (2, 4, "{-6, -4, 4, 10000014}"),
+                    (3, 3, "{-6, 4, 10000014}")]
+    for (dim, nmax, g) in lattices:
+        res, pts = enumerate_points("C19", f"layout-{dim}d-n{nmax}", "Layout",
                                     {"Grid": g, "Dim": str(dim), "NMin": "2", "NMax": str(nmax)},
                                     ["Emit", "Bijection", "PermutationInvariant", "SortedAscending"])
         tests = 0
         for rec in pts:
             tests += check_point(rec, V)
         runs.append((dim, nmax, res, len(pts), tests, pts[:2]))
+    n_probes = probes(V)
     cov = {
+        "refusal_probes": n_probes,
         "states": sum(r[2].distinct for r in runs), "transitions": sum(r[2].generated for r in runs),
         "traces_validated_against_impl": sum(r[3] for r in runs),
         "implementation_assertions": sum(r[4] for r in runs),
